@@ -47,6 +47,15 @@ def oracle_c01(rr: Any, spec: Dict[str, Any]) -> List[Violation]:
         v.append(Violation("deadlock", "worker deadlocked (no timer, no ready callback)"))
     yields = valid_deliveries(tr)
     starts = Counter(e["m"] for e in tr if e["k"] == "task_start")
+    # the function is invoked with the keyword arguments of its own message (and nobody else's)
+    sent_kw = {(m.get("tok") or f"m{i}"): m.get("kwargs", {}) for i, m in enumerate(spec.get("msgs", []))}
+    for e in tr:
+        if e["k"] == "task_start" and e.get("tok") in sent_kw and "opt" in str(sent_kw.values()):
+            want_opt = sent_kw[e["tok"]].get("opt")
+            got_opt = (e.get("kwargs") or {}).get("opt")
+            if got_opt != want_opt:
+                v.append(Violation("kwargs-of-another-message", f"delivery {e['m']} ({e['tok']}) was invoked with opt={got_opt!r}, its message carries opt={want_opt!r}"))
+                break
     nyield = 0
     order = [e["m"] for e in tr if e["k"] == "yield"]
     N = spec.get("cfg", {}).get("N")
@@ -611,6 +620,8 @@ def oracle_c07(rr: Any, spec: Dict[str, Any]) -> "tuple[List[Violation], int]":
             got = res.return_value
             if not isinstance(got, dict) or got.get("tok") != want["tok"] or got.get("v") != want["v"]:
                 v.append(Violation("return-value-wrong", f"delivery {d}: stored return_value {got!r}, expected token/value {want}"))
+            elif beh.get("ret_handle") and type(got).__name__ != "_Handle":
+                v.append(Violation("return-value-wrong", f"delivery {d}: the function returned an awaitable handle object, the stored return_value is {type(got).__name__}"))
         elif how == "raise":
             exc = rr.sc.raised.get(d)
             if not res.is_err:
@@ -802,6 +813,16 @@ def oracle_c10(rr: Any, spec: Dict[str, Any]) -> "tuple[List[Violation], int]":
         if seq != want:
             v.append(Violation("worker-hook-order", f"delivery {d} (outcome {how}): observed {seq}, expected {want}"))
             continue
+        if resent and spec.get("retry") is not None:
+            # the retry middleware is one of the registered middlewares: its on_error (which re-sends the message) runs
+            # at its own place in the registration order
+            pos = min(spec["retry"].get("pos", 0), len(mws))
+            kick_i = next(e["i"] for e in evs if e["k"] == "kick")
+            for e in evs:
+                if e["k"] == "mw:on_error" and ((e["mw"] < pos) != (e["i"] < kick_i)):
+                    v.append(Violation("worker-hook-order", f"delivery {d}: on_error of middleware {e['mw']} ran {'before' if e['i'] < kick_i else 'after'} the retry "
+                                       f"middleware's on_error, which is registered at position {pos}"))
+                    break
         arrived = (first(evs, "mw:pre_execute") or {}).get("marks", [])
         # a re-sent message (retry middleware) arrives with the markers its previous delivery had collected
         marks = sorted(k for k in arrived if "pre_send" in k or spec.get("retry"))
